@@ -62,6 +62,22 @@ def gen_arrays(ctx):
         row = [ctx.rng.randint(0, 9) if w < 100 else ctx.rng.randint(10000, 99999) for _ in range(w)]
         other = list(row); other[-1] += 1
         out.append(np.array([row, other, row, row]))
+    # integers beyond 2^53 (ids, nanosecond timestamps): neighbours that are equal as doubles but distinct as integers
+    for _ in range(ctx.n(40, 400)):
+        r = ctx.rng.randint(2, 7); c = ctx.rng.randint(1, 3)
+        base = ctx.rng.choice([2**53, 2**53 + 1, 1_700_000_000_000_000_000, 2**62, 2**63 - 8])
+        dt = np.uint64 if ctx.rng.random() < 0.3 else np.int64
+        m = [[base + ctx.rng.randint(0, 2) if ctx.rng.random() < 0.7 else ctx.rng.randint(0, 3) for _ in range(c)] for _ in range(r)]
+        if ctx.rng.random() < 0.5:
+            m[ctx.rng.randrange(r)] = list(m[0])
+        if ctx.rng.random() < 0.5:
+            m = sorted(m)
+        out.append(np.array(m, dtype=dt))
+    # a first row made of the same repeated small value (-1, 0, ...): placeholders / sentinels must not match real data
+    for v in (-1, 0, -1, 1, -2, 255):
+        r = ctx.rng.randint(1, 4); c = ctx.rng.randint(1, 3)
+        m = [[v] * c] + [[ctx.rng.choice([v, v, 0, 3]) for _ in range(c)] for _ in range(r - 1)]
+        out.append(np.array(m))
     # wide rows that differ in one column anywhere (first, middle, just outside the last 32 / 64 columns): [A, B, A]
     for _ in range(ctx.n(30, 300)):
         w = ctx.rng.choice([31, 32, 33, 34, 40, 63, 64, 65, 66, 100, 129])
